@@ -141,6 +141,7 @@ CRON = {
         "thorough": [{"module": "Cron_Sim.tla", "cfg": "Cron_Sim_a.cfg", "num": 3000, "depth": 45, "harness_cfg": CRON_HCFG, "timeout": 1200},
                      {"module": "Cron_Sim.tla", "cfg": "Cron_Sim_b.cfg", "num": 3000, "depth": 60, "harness_cfg": {"NJC": 3, "MaxMissed": 1, "MaxDownMin": 1}, "timeout": 1200}],
     },
+    "goals": {t: [{"module": "Cron_Goal.tla", "cfg": "Cron_Goal_a.cfg", "harness_cfg": {"NJC": 1, "MaxMissed": 2, "MaxDownMin": 3}, "timeout": 420}] for t in ("quick", "thorough")},
     "harness": {
         "quick": [
             {"name": "random", "args": ["cron", "-mode", "random", "-seed", "{seed}", "-runs", "250", "-steps", "120"]},
